@@ -135,10 +135,14 @@ def _normalise(run, prog):
 
 def _mode_of(guards, mode):
     """Which mode does this conjunction of guards select: 'sum' / 'delta' / 'other' / None."""
-    pos = [g[3][1] for g in guards if g[0] == "cmp" and g[1] == "==" and g[2] == mode and g[3][0] == "const"]
-    pos += [g[2][1] for g in guards if g[0] == "cmp" and g[1] == "==" and g[3] == mode and g[2][0] == "const"]
-    neg = [g[1][3][1] for g in guards if g[0] == "not" and g[1][0] == "cmp" and g[1][1] == "==" and g[1][2] == mode
-           and g[1][3][0] == "const"]
+    from .boolalg import literal
+    pos, neg = [], []
+    for g in guards:
+        a, pol = literal(g)
+        if a[0] == "cmp" and a[1] == "==" and mode in (a[2], a[3]):
+            other = a[3] if a[2] == mode else a[2]
+            if other[0] == "const":
+                (pos if pol else neg).append(other[1])
     if len(pos) == 1 and pos[0] in ("sum", "delta"):
         return pos[0]
     if not pos and set(neg) >= {"sum", "delta"}:
